@@ -67,11 +67,26 @@ def isExpressionText (s : Str) : Bool :=
   let segs := splitOn isUnicodeOp s
   segs.length ≥ 2 && segs.all isIdentifierText
 
+def isWordA (c : Char) : Bool := isAlnumA c || c == '_'
+
+/-- does `s` start with one of `true|false|null|vs` not followed by `[A-Za-z0-9_]`? -/
+def reservedAt (s : Str) : Bool :=
+  ["true".toList, "false".toList, "null".toList, "vs".toList].any fun w =>
+    w.isPrefixOf s && !((s.drop w.length).head?.map isWordA).getD false
+
+/-- `_RESERVED_PREFIX_PATTERN.search(value)`: a reserved word at the start of the value or right after
+one of `_UNICODE_OPS`, followed by a non-word char or the end. -/
+def reservedPrefixAux : Str → Bool
+  | [] => false
+  | c :: cs => (isUnicodeOp c && reservedAt cs) || reservedPrefixAux cs
+def hasReservedPrefix (s : Str) : Bool := reservedAt s || reservedPrefixAux s
+
 /-- `needs_quotes(value)` for a `str`. -/
 def needsQuotes (s : Str) : Bool :=
   if s.isEmpty then true
   else if s.contains '\n' || s.contains '\t' || s.contains '\r' then true
   else if s == "true".toList || s == "false".toList || s == "null".toList || s == "vs".toList then true
+  else if hasReservedPrefix s then true
   else if isVariableText s then false
   else if isAnnotationText s then false
   else if isExpressionText s then false
@@ -190,48 +205,51 @@ def emitPairs : List (Str × Value) → Nat → Option (List Str)
       | _, _ => none
 end
 
-def leadingLines (comments : List Str) (ind : Nat) : List Str :=
-  comments.map fun c => indentStr ind ++ "// ".toList ++ c
+/-- `f"{indent}// {comment}".rstrip()` -/
+def commentLine (env : Env) (ind : Nat) (c : Str) : Str := env.rstrip (indentStr ind ++ "// ".toList ++ c)
+
+def leadingLines (env : Env) (comments : List Str) (ind : Nat) : List Str :=
+  comments.map (commentLine env ind)
 
 def fenceLines (ind : Nat) (content : Str) (tag : Option Str) (marker : Str) : List Str :=
   [indentStr ind ++ marker ++ (match tag with | some t => t | none => [])]
   ++ (if content.isEmpty then [] else [content]) ++ [indentStr ind ++ marker]
 
 /-- `emit_assignment` as a list of lines (joined with "\n" by the callers). -/
-def emitAssignment (key : Str) (value : Value) (ind : Nat) (leading : List Str) (trailing : Option Str) : Option (List Str) :=
+def emitAssignment (env : Env) (key : Str) (value : Value) (ind : Nat) (leading : List Str) (trailing : Option Str) : Option (List Str) :=
   match value with
-  | .zone c t m => some (leadingLines leading ind ++ [indentStr ind ++ key ++ "::".toList] ++ fenceLines ind c t m)
+  | .zone c t m => some (leadingLines env leading ind ++ [indentStr ind ++ key ++ "::".toList] ++ fenceLines ind c t m)
   | v =>
     (emitValue v ind).map fun vs =>
       let vs' := forceQuote key vs v
       let tr := match trailing with | some c => if c.isEmpty then [] else " // ".toList ++ c | none => []
-      leadingLines leading ind ++ [indentStr ind ++ key ++ "::".toList ++ vs' ++ tr]
+      leadingLines env leading ind ++ [indentStr ind ++ key ++ "::".toList ++ vs' ++ tr]
 
 mutual
 /-- `emit_block` / `emit_section` / child dispatch, as lists of lines. -/
-def emitNode : Node → Nat → Bool → Option (List Str)
+def emitNode (env : Env) : Node → Nat → Bool → Option (List Str)
   | .assign key value _ _ leading trailing, ind, inBlock =>
     match value with
     | .absent => some []
     | .zone c t m =>
       if inBlock && key.isEmpty then some (fenceLines ind c t m)
-      else emitAssignment key value ind leading trailing
-    | _ => emitAssignment key value ind leading trailing
+      else emitAssignment env key value ind leading trailing
+    | _ => emitAssignment env key value ind leading trailing
   | .block key children _ _ leading target, ind, _ =>
-    (emitChildren children (ind + 1) true).map fun cl =>
-      leadingLines leading ind
+    (emitChildren env children (ind + 1) true).map fun cl =>
+      leadingLines env leading ind
       ++ [indentStr ind ++ key ++ (match target with | some t => if t.isEmpty then [] else "[→§".toList ++ t ++ [']'] | none => []) ++ [':']]
       ++ cl
   | .sect id key ann children _ _ leading, ind, _ =>
-    (emitChildren children (ind + 1) false).map fun cl =>
-      leadingLines leading ind
+    (emitChildren env children (ind + 1) false).map fun cl =>
+      leadingLines env leading ind
       ++ [indentStr ind ++ ['§'] ++ id ++ "::".toList ++ key ++ (match ann with | some a => if a.isEmpty then [] else '[' :: a ++ [']'] | none => [])]
       ++ cl
-  | .comment text, ind, _ => some [indentStr ind ++ "// ".toList ++ text]
-def emitChildren : List Node → Nat → Bool → Option (List Str)
+  | .comment text, ind, _ => some [commentLine env ind text]
+def emitChildren (env : Env) : List Node → Nat → Bool → Option (List Str)
   | [], _, _ => some []
   | n :: ns, ind, inBlock =>
-    match emitNode n ind inBlock, emitChildren ns ind inBlock with
+    match emitNode env n ind inBlock, emitChildren env ns ind inBlock with
     | some a, some b => some (a ++ b)
     | _, _ => none
 end
@@ -262,13 +280,13 @@ def emitMetaLines : List (Str × MetaVal) → Option (List Str)
       | _, _ => none
 
 /-- top-level nodes: only Assignment / Block / Section are emitted by `emit` (a top-level Comment is skipped). -/
-def emitTop : List Node → Option (List Str)
+def emitTop (env : Env) : List Node → Option (List Str)
   | [] => some []
   | n :: ns =>
     match n with
-    | .comment _ => emitTop ns
+    | .comment _ => emitTop env ns
     | other =>
-      match emitNode other 0 false, emitTop ns with
+      match emitNode env other 0 false, emitTop env ns with
       | some a, some b => some (a ++ b)
       | _, _ => none
 
@@ -284,8 +302,8 @@ def emit (env : Env) (d : Document) : Option Str := do
   let metaPart : List Str :=
     if d.metaKv.isEmpty then [] else [if metaLines.isEmpty then [] else joinWith ['\n'] ("META:".toList :: metaLines)]
   let sep : List Str := if d.hasSeparator then ["---".toList] else []
-  let body ← emitTop d.sections
-  let trailing := leadingLines d.trailingComments 0
+  let body ← emitTop env d.sections
+  let trailing := leadingLines env d.trailingComments 0
   let out := joinWith ['\n'] (fm ++ gv ++ ["===".toList ++ d.name ++ "===".toList] ++ metaPart ++ sep ++ body ++ trailing ++ ["===END===".toList])
   pure (if out.getLast? == some '\n' then out else out ++ ['\n'])
 
